@@ -103,7 +103,7 @@ func opAlias(args []string) string {
 		if err := feed(doc1); err != nil {
 			return "err"
 		}
-		if p.VerifFinalize() != nil {
+		if hookParserFinalize(p) != nil {
 			return "err"
 		}
 		before = UPrintVal(target1.Elem())
@@ -113,7 +113,7 @@ func opAlias(args []string) string {
 		err2 := feed(doc2)
 		churn()
 		after = UPrintVal(target1.Elem())
-		if err2 == nil && p.VerifFinalize() == nil && ok2 {
+		if err2 == nil && hookParserFinalize(p) == nil && ok2 {
 			second = UPrintVal(target2.Elem())
 		}
 	} else {
